@@ -12,7 +12,7 @@ Open Scope string_scope.
    answer the same cluster gave earlier to the same key, within its TTL and since that cluster was last
    replaced.  Never an answer of another cluster. *)
 Theorem C12_answer_provenance : forall cfg torc sorc ops,
-  let '(_, _, fresh, cached) := spec_ok cfg torc sorc (runx cfg torc sorc (init cfg) ops) in
+  let '((_, _, fresh, cached), _) := spec_ok cfg torc sorc (runx cfg torc sorc (init cfg) ops) in
   fresh = true /\ cached = true.
 Proof. exact provenance_ok. Qed.
 Print Assumptions C12_answer_provenance.
@@ -85,9 +85,27 @@ Theorem C12_overlap_commutes : forall cfg torc sorc s a b,
 Proof. exact overlap_commutes. Qed.
 Print Assumptions C12_overlap_commutes.
 
-(* All four clauses of the executable specification hold on every history of the model. *)
+(* A request through the proxy chain (ExtraRequestInfo -> WithUpstreamInfo -> bearer authentication ->
+   impersonation filter -> dispatcher) that reaches the dispatcher is dispatched to the cluster its
+   Host names, and every TokenReview / SubjectAccessReview made for it was received by that same cluster
+   (nothing but the Host decides either) ... *)
+Theorem C12_dispatch_cluster_is_review_cluster : forall cfg torc sorc s h tok imp now t z d,
+  snd (stepx cfg torc sorc s (Chain h tok imp now)) = RC t z (Some d) ->
+  cluster_of cfg h = Some d /\
+  (forall x cl, (t = Some x \/ z = Some x) -> In cl (out_calls x) -> fst cl = d /\ snd cl = true).
+Proof. exact chain_dispatch. Qed.
+Print Assumptions C12_dispatch_cluster_is_review_cluster.
+
+(* ... and on every history the executable clause same_cluster holds: whatever decided a dispatched
+   request — fresh reviews or cached answers — came from the cluster it is dispatched to. *)
+Theorem C12_same_cluster_history : forall cfg torc sorc ops,
+  snd (spec_ok cfg torc sorc (runx cfg torc sorc (init cfg) ops)) = true.
+Proof. exact dispatch_ok. Qed.
+Print Assumptions C12_same_cluster_history.
+
+(* All five clauses of the executable specification hold on every history of the model. *)
 Theorem C12_history : forall cfg torc sorc ops,
-  spec_ok cfg torc sorc (runx cfg torc sorc (init cfg) ops) = (true, true, true, true).
+  spec_ok cfg torc sorc (runx cfg torc sorc (init cfg) ops) = ((true, true, true, true), true).
 Proof. exact history_ok. Qed.
 Print Assumptions C12_history.
 
@@ -162,17 +180,17 @@ Example C12_spec_rejects_leak :
     [(One (OHealthy "a0" true), R1 OutNone); (One (OHealthy "b0" true), R1 OutNone);
      (One (OAuthn (Some "a") "tok" 0), R1 (OutT {| t_user := Some ("alice@a", "1"); t_ok := true; t_err := ENone |} [("a", true)]));
      (One (OAuthn (Some "b") "tok" 1), R1 (OutT {| t_user := Some ("alice@a", "1"); t_ok := true; t_err := ENone |} []))]
-  = (true, true, true, false)
+  = ((true, true, true, false), true)
   /\
   spec_ok ex_cfg ex_torc ex_sorc
     [(One (OHealthy "a0" true), R1 OutNone); (One (OHealthy "b0" true), R1 OutNone);
      (One (OAuthn (Some "b") "tok" 0), R1 (OutT {| t_user := Some ("alice@a", "1"); t_ok := true; t_err := ENone |} [("a", true)]))]
-  = (false, true, true, true)
+  = ((false, true, true, true), true)
   /\
   spec_ok ex_cfg ex_torc ex_sorc
     [(One (OHealthy "a0" true), R1 OutNone);
      (One (OAuthz (Some "b") ex_attrs 0), R1 (OutS {| s_dec := DAllow; s_reason := "ok@a"; s_err := ENone |} [("a", true)]))]
-  = (false, false, true, true).
+  = ((false, false, true, true), true).
 Proof. vm_compute. repeat split. Qed.
 
 (* overlapping requests: the same attributes for a host of a and a host of b while a's review is in
@@ -196,7 +214,7 @@ Example C12_overlap_nonvacuous :
       R2 (OutS {| s_dec := DAllow; s_reason := "ok@a"; s_err := ENone |} [("a", true)])
          (OutS {| s_dec := DAllow; s_reason := "ok@a"; s_err := ENone |} []));
      (One (OAuthz (Some "b") ex_attrs 1), R1 (OutS {| s_dec := DAllow; s_reason := "ok@a"; s_err := ENone |} []))]
-  = (true, true, true, false).
+  = ((true, true, true, false), true).
 Proof. vm_compute. split; [reflexivity|]. split; [discriminate|reflexivity]. Qed.
 
 (* server lists change: a0 is removed from a and re-homed to b.  Requests for a are then answered by
@@ -224,5 +242,32 @@ Example C12_rehoming_nonvacuous :
     [(One (OHealthy "a0" true), R1 OutNone); (One (OHealthy "b0" true), R1 OutNone);
      (One (ORemoveEp "a" "a0"), R1 OutNone); (One (OAddEp "b" "a0"), R1 OutNone); (One (OHealthy "a0" true), R1 OutNone);
      (One (OAuthn (Some "a") "t2" 1), R1 (OutT {| t_user := None; t_ok := false; t_err := ENone |} [("b", true)]))]
-  = (false, false, true, true).
+  = ((false, false, true, true), true).
 Proof. vm_compute. repeat split. Qed.
+
+(* chain requests: authenticated by a, allowed to impersonate by a, dispatched to a; refused ones never
+   reach the dispatcher.  A history in which the same request is dispatched to b although a's reviews
+   decided it (TLS SNI naming b) fails clause 5 only. *)
+Example C12_chain_nonvacuous :
+  let ops := [One (OHealthy "a0" true); One (OHealthy "b0" true);
+              Chain "a" "tok" (Some "admin") 0; Chain "a" "tok" None 1; Chain "b" "tok" None 2;
+              Chain "nowhere" "tok" None 3; Chain "b" "tok" (Some "admin") 12] in
+  map snd (runx ex_cfg ex_torc ex_sorc (init ex_cfg) ops) =
+  [R1 OutNone; R1 OutNone;
+   RC (Some (OutT {| t_user := Some ("alice@a", "1"); t_ok := true; t_err := ENone |} [("a", true)]))
+      (Some (OutS {| s_dec := DAllow; s_reason := "ok@a"; s_err := ENone |} [("a", true)])) (Some "a");
+   RC (Some (OutT {| t_user := Some ("alice@a", "1"); t_ok := true; t_err := ENone |} [])) None (Some "a");
+   RC (Some (OutT {| t_user := None; t_ok := false; t_err := ENone |} [("b", true)])) None None;
+   RC None None None;
+   RC (Some (OutT {| t_user := Some ("mallory@b", "9"); t_ok := true; t_err := ENone |} [("b", true)]))
+      (Some (OutS {| s_dec := DDeny; s_reason := "no@b"; s_err := ENone |} [("b", true)])) None]
+  /\
+  spec_ok ex_cfg ex_torc ex_sorc
+    [(One (OHealthy "a0" true), R1 OutNone); (One (OHealthy "b0" true), R1 OutNone);
+     (Chain "a" "tok" (Some "admin") 0,
+      RC (Some (OutT {| t_user := Some ("alice@a", "1"); t_ok := true; t_err := ENone |} [("a", true)]))
+         (Some (OutS {| s_dec := DAllow; s_reason := "ok@a"; s_err := ENone |} [("a", true)])) (Some "b"));
+     (Chain "a" "tok" None 1,
+      RC (Some (OutT {| t_user := Some ("alice@a", "1"); t_ok := true; t_err := ENone |} [])) None (Some "b"))]
+  = ((true, true, true, true), false).
+Proof. vm_compute. split; reflexivity. Qed.
